@@ -39,6 +39,11 @@ theorem Micro.rv_le {jo : JobObj} {sp s s' : Sys} (hm : Micro jo sp s s') : s.rv
     rcases apiUpdateJobStatus_spec s jo { jo with job := (sync sp jo).2.1 } with h | ⟨c, _, _, h⟩
     · rw [h.rv]; exact Nat.le_refl _
     · rw [h.rv]; exact Nat.le_succ _
+  | updStatusOn s1 _ _ _ =>
+    rcases apiUpdateJobStatus_spec s { jo with rv := updatedRv s jo } { jo with job := (sync sp jo).2.1 } with
+      h | ⟨c, _, _, h⟩
+    · rw [h.rv]; exact Nat.le_refl _
+    · rw [h.rv]; exact Nat.le_succ _
 
 theorem Micros.rv_le {jo : JobObj} {sp s s' : Sys} (hm : Micros jo sp s s') : s.rv ≤ s'.rv := by
   induction hm with
@@ -69,6 +74,14 @@ inductive JobMove (s0 : Sys) (a : Action) : Option JobObj → Option JobObj → 
         (some (specWrite jo { jo with job := (sync sp jo).2.1, finalizer := (sync sp jo).2.2.1 } rv))
   | ctlStatus (jo : JobObj) (sp : Sys) (rv : Nat) : a = .work → s0.jobCache = some jo → Frame s0 sp → s0.rv < rv →
       JobMove s0 a (some jo) (some (statusWrite jo { jo with job := (sync sp jo).2.1 } rv))
+  /-- the `UpdateStatus` of a pass that follows the `Update` of the same pass (`UpdateJobAndStatus`): it is
+  written on top of the object that `Update` produced -/
+  | ctlStatusOn (jo : JobObj) (sp : Sys) (rv0 rv : Nat) : a = .work → s0.jobCache = some jo → Frame s0 sp →
+      s0.rv < rv →
+      JobMove s0 a
+        (some (specWrite jo { jo with job := (sync sp jo).2.1, finalizer := (sync sp jo).2.2.1 } rv0))
+        (some (statusWrite (specWrite jo { jo with job := (sync sp jo).2.1, finalizer := (sync sp jo).2.2.1 } rv0)
+          { jo with job := (sync sp jo).2.1 } rv))
 
 inductive JobMoves (s0 : Sys) (a : Action) : Option JobObj → Option JobObj → Prop
   | refl (o : Option JobObj) : JobMoves s0 a o o
@@ -88,7 +101,8 @@ theorem JobMoves.of_eq {s0 : Sys} {a : Action} {o o' : Option JobObj} (h : o' = 
 
 /-- a controller micro-step moves the Job object at most once -/
 theorem jobMoves_micro {j0 jo : JobObj} {s0 sp s s' : Sys} (hb : Base j0 s) (hc : s.jobCache = some jo)
-    (hc0 : s0.jobCache = some jo) (hsp : Frame s0 sp) (hrv0 : s0.rv ≤ s.rv) (hm : Micro jo sp s s') :
+    (hc0 : s0.jobCache = some jo) (hsp : Frame s0 sp) (hrv0 : s0.rv ≤ s.rv)
+    (hid : CachedIsCur jo (sync sp jo).1) (hm : Micro jo sp s s') :
     JobMoves s0 .work s.job s'.job := by
   have hseen := mem_seenVers_cache hc
   cases hm with
@@ -137,15 +151,58 @@ theorem jobMoves_micro {j0 jo : JobObj} {s0 sp s s' : Sys} (hb : Base j0 s) (hc 
       subst this
       rw [hc', h.job]
       exact .single (.ctlStatus jo sp _ rfl hc0 hsp (Nat.lt_succ_of_le hrv0))
+  | updStatusOn s1 hs1 hs hok =>
+    rcases apiUpdateJobStatus_spec s { jo with rv := updatedRv s jo } { jo with job := (sync sp jo).2.1 } with
+      h | ⟨c, hc', hrv, h⟩
+    · exact .of_eq h.job
+    · have hcs := (apiUpdateJob_ok_cur (hs1 ▸ hid) hok c (hs ▸ hc')).1
+      rw [hc', h.job, hcs]
+      exact .single (.ctlStatusOn jo sp _ _ rfl hc0 hsp (Nat.lt_succ_of_le hrv0))
 
 theorem jobMoves_micros {j0 jo : JobObj} {s0 sp s s' : Sys} (hb : Base j0 s) (hc : s.jobCache = some jo)
-    (hc0 : s0.jobCache = some jo) (hsp : Frame s0 sp) (hrv0 : s0.rv ≤ s.rv) (hm : Micros jo sp s s') :
+    (hc0 : s0.jobCache = some jo) (hsp : Frame s0 sp) (hrv0 : s0.rv ≤ s.rv)
+    (hid : CachedIsCur jo (sync sp jo).1) (hm : Micros jo sp s s') :
     JobMoves s0 .work s.job s'.job := by
   induction hm with
   | refl => exact .refl _
   | tail hms hm ih =>
     have := hb.micros hc hms
-    exact ih.trans (jobMoves_micro this.1 this.2 hc0 hsp (Nat.le_trans hrv0 hms.rv_le) hm)
+    exact ih.trans (jobMoves_micro this.1 this.2 hc0 hsp (Nat.le_trans hrv0 hms.rv_le) hid hm)
+
+/-- whatever moved, the object is the one of `s0`, or a version written during the action, or gone -/
+theorem JobMoves.same_or_newer {s0 : Sys} {a : Action} {o o' : Option JobObj} (h : JobMoves s0 a o o') :
+    o' = o ∨ (∃ x, o' = some x ∧ s0.rv < x.rv) ∨ o' = none := by
+  induction h with
+  | refl => exact Or.inl rfl
+  | tail _ hm _ =>
+    cases hm with
+    | goneUser => exact Or.inr (Or.inr rfl)
+    | goneTTL => exact Or.inr (Or.inr rfl)
+    | goneSpec => exact Or.inr (Or.inr rfl)
+    | delMark cur t rv _ _ _ hrv => exact Or.inr (Or.inl ⟨_, rfl, hrv⟩)
+    | kill cur t rv _ hrv => exact Or.inr (Or.inl ⟨_, rfl, hrv⟩)
+    | ctlSpec jo sp rv _ _ _ hrv _ => exact Or.inr (Or.inl ⟨_, rfl, hrv⟩)
+    | ctlStatus jo sp rv _ _ _ hrv => exact Or.inr (Or.inl ⟨_, rfl, hrv⟩)
+    | ctlStatusOn jo sp rv0 rv _ _ _ hrv => exact Or.inr (Or.inl ⟨_, rfl, hrv⟩)
+
+/-- if the metadata write of the pass that started in `sp` (= `s0` up to bookkeeping) passes the
+resourceVersion check, the pass has not touched the Job object before: the object of `s0` is the cached Job -/
+def CachedIsCur0 (jo : JobObj) (s0 sp : Sys) : Prop :=
+  ∀ c, (sync sp jo).1.job = some c → c.rv = jo.rv → s0.job = some jo
+
+theorem cachedIsCur0_sync {j0 jo : JobObj} {s0 sp : Sys} (hb : Base j0 sp) (hc : sp.jobCache = some jo)
+    (hf : Frame s0 sp) : CachedIsCur0 jo s0 sp := by
+  intro c hcj hrv
+  have hid := cachedIsCur_sync hb hc
+  have hcjo := hid c hcj hrv
+  subst hcjo
+  have hm := (sync_spec sp c sp (CreatePhase.refl _)).1
+  have hmv := jobMoves_micros (s0 := sp) hb hc hc (Frame.refl sp) (Nat.le_refl _) hid hm
+  have hjrv : c.rv ≤ sp.rv := (hb.seenOK c (mem_seenVers_cache hc)).2
+  rcases hmv.same_or_newer with h | ⟨x, hx, hr⟩ | h
+  · rw [← hf.job, ← h]; exact hcj
+  · rw [hcj] at hx; cases hx; omega
+  · rw [hcj] at h; cases h
 
 /-- every step of the transition system moves the authoritative Job object by `JobMoves` -/
 theorem job_moves {j0 : JobObj} {s : Sys} (hb : Base j0 s) (a : Action) (hal : Allowed j0 s a) :
@@ -158,7 +215,8 @@ theorem job_moves {j0 : JobObj} {s : Sys} (hb : Base j0 s) (a : Action) (hal : A
     | none => exact .of_eq (work_frame s hc).job
     | some jo =>
       obtain ⟨sp, hf, hm⟩ := work_micros s jo hc
-      have := jobMoves_micros (hb.frame hf) (hf.jobCache.trans hc) hc hf (by rw [hf.rv]; exact Nat.le_refl _) hm
+      have := jobMoves_micros (hb.frame hf) (hf.jobCache.trans hc) hc hf (by rw [hf.rv]; exact Nat.le_refl _)
+        (cachedIsCur_sync (hb.frame hf) (hf.jobCache.trans hc)) hm
       rw [hf.job] at this
       exact this
   | deliverJob => exact .of_eq (deliverJob_fields s).1
@@ -217,6 +275,7 @@ theorem JobMoves.none_stays {s0 : Sys} {a : Action} {o o' : Option JobObj} (h : 
     | kill => cases this
     | ctlSpec => cases this
     | ctlStatus => cases this
+    | ctlStatusOn => cases this
 
 /-- A relation on Job values that is reflexive, transitive, unaffected by metadata / spec-only
 writes that keep the status, and that every Job `sync` computes satisfies with respect to its input:
@@ -248,6 +307,12 @@ theorem jobMoves_rel {s0 : Sys} {a : Action} (R : Job → Job → Prop)
     | ctlStatus jo sp rv _ hc hf _ =>
       cases h2
       refine htrans _ _ _ (ih j jo h1 rfl) ?_
+      exact hset _ _ _ (hsync jo sp hc hf) rfl
+    | ctlStatusOn jo sp rv0 rv _ hc hf _ =>
+      cases h2
+      refine htrans _ _ _ (ih j _ h1 rfl) ?_
+      -- the object `Update` produced carries the status of the cached Job
+      refine htrans _ jo.job _ (hstatus _ _ rfl) ?_
       exact hset _ _ _ (hsync jo sp hc hf) rfl
 
 /-- the step-wise version of `jobMoves_rel` for the authoritative Job of a reachable state -/
